@@ -162,7 +162,7 @@ def _enclosing_statement(src_path, log):
         if i >= int(m.group(1)): break
     return name
 
-def _tie_build(log):
+def _tie_build(log, audit=True):
     """(a) translate the current source, (b) compile the generated file and the tie proofs into the scratch
     directory, (c) audit Print Assumptions.  Returns a dict with status in
     proved | untranslatable | generated-file-rejected | proof-broken | evaluated-only."""
@@ -231,6 +231,9 @@ def _tie_build(log):
                        broken_theorem=where, detail=out[-2500:])
             return res
         with open(sp, "w") as f: f.write(stamp)
+    if not audit:       # bin/setup: only make sure the scratch objects exist (every bin/check of every property runs bin/setup)
+        res["status"] = "warm"
+        return res
     # (c) the theorem file is recompiled on every run, its Print Assumptions output parsed (as core.audit_props does)
     with open(thm_v, "w") as f: f.write(proofs["C19_gen.v"])
     t1 = time.time()
@@ -256,12 +259,13 @@ def glob_vo(th):
     import glob
     return [f for pat in ("Model/SCC.vo", "Model/PyRT.vo", "Proofs/SCC_*.vo") for f in glob.glob(os.path.join(th, pat))]
 
-def warm_tie():
-    """called (non-fatally) at the end of bin/setup: translate + compile the tie into the scratch build"""
+def warm_tie(audit=True):
+    """steps (a)-(c) under the scratch build's lock.  bin/setup calls it (non-fatally) with audit=False at its end:
+    translate + compile Generated/SCC_gen.v and GeneratedProofs/SCC_gen_refines.v into the scratch build if stale"""
     os.makedirs(os.path.join(BUILD, "gen"), exist_ok=True)
     with open(os.path.join(BUILD, "gen", ".lock"), "w") as lk:
         fcntl.flock(lk, fcntl.LOCK_EX)
-        return _tie_build([])
+        return _tie_build([], audit=audit)
 
 def translator_tie(tier, seed, vals, n_exh, hvals, corr_violations, prebuilt=None):
     """The second tie of C19, run on every check: regenerate the Gallina definitions from the source that is being
